@@ -747,3 +747,134 @@ def injection_points(un, every_syscall=False):
         for j, (name, ordinal) in enumerate(use):
             pts.append((k, name, ordinal, None, "%s%s" % (X.fmt_step(st), "" if j == 0 else " [+%d]" % j)))
     return pts
+
+
+# ====================================================================== histories on ONE long-lived server process
+MODIFYING = ("PUT", "DELETE", "PROPPATCH", "MOVE", "MKCOL", "MKCALENDAR")
+
+
+def _rq(method, path, data=None, login=L, **headers):
+    d = dict(method=method, path=path, login=login)
+    if data is not None:
+        d["data"] = data
+    if headers:
+        d["headers"] = headers
+    return d
+
+
+def _item_ops(coll, tag, rng, n):
+    """n item-level / property changes of collection `coll` (all answered 2xx on a collection that exists and is a calendar)"""
+    D = "http://127.0.0.1"
+    out, mine = [], []
+    for i in range(n):
+        k = rng.choice(["put_new", "put_new", "put_over", "delete", "proppatch", "move_same"]) if i else "put_new"
+        if k in ("put_over", "delete", "move_same") and not mine:
+            k = "put_new"
+        if k == "put_new":
+            u = "h%s%d" % (tag, i)
+            mine.append(u)
+            out.append(_rq("PUT", "/%s/%s.ics" % (coll, u), EV(u)))
+        elif k == "put_over":
+            u = rng.choice(mine)
+            out.append(_rq("PUT", "/%s/%s.ics" % (coll, u), EV(u.split("-")[0], "again%d" % i)))
+        elif k == "delete":
+            u = mine.pop(rng.randrange(len(mine)))
+            out.append(_rq("DELETE", "/%s/%s.ics" % (coll, u)))
+        elif k == "proppatch":
+            out.append(_rq("PROPPATCH", "/%s/" % coll, PROPPATCH % ("d%s%d" % (tag, i))))
+        else:
+            u = mine.pop(rng.randrange(len(mine)))
+            v = u + "-m"
+            mine.append(v)
+            out.append(_rq("MOVE", "/%s/%s.ics" % (coll, u), HTTP_HOST="127.0.0.1", HTTP_DESTINATION="%s/%s/%s.ics" % (D, coll, v)))
+    return out
+
+
+REBINDS = ("replace", "replace_empty", "delete_mkcalendar", "delete_putcoll", "empty_rmdir_mkcalendar", "parent_delete_mkcol")
+
+
+def _rebind(kind, coll, tag):
+    """requests after which the path of collection `coll` names ANOTHER directory than before"""
+    if kind == "replace":            # whole-collection PUT over an existing collection: the two directories are exchanged
+        return [_rq("PUT", "/%s/" % coll, EVS(["r%sa" % tag, "r%sb" % tag]))]
+    if kind == "replace_empty":
+        return [_rq("PUT", "/%s/" % coll, EVS([]))]
+    if kind == "delete_mkcalendar":  # the directory is renamed into a temp directory and removed, a new one is renamed in
+        return [_rq("DELETE", "/%s/" % coll), _rq("MKCALENDAR", "/%s/" % coll)]
+    if kind == "delete_putcoll":
+        return [_rq("DELETE", "/%s/" % coll), _rq("PUT", "/%s/" % coll, EVS(["q%sa" % tag]))]
+    raise ValueError(kind)
+
+
+def histories(rng, quick):
+    """Multi-request histories for one server process (one Storage object) on the warm store: a collection directory is used
+    (item-level changes: its directory, its cache directories are synced), then its PATH IS REBOUND to another directory
+    (whole-collection PUT = exchange; DELETE + MKCALENDAR / whole-collection PUT of the same name; rmdir of an empty
+    collection + MKCALENDAR; the same one level up: DELETE + MKCOL of the parent, then a collection created in it), then
+    further item-level changes.  Returns list of (name, layout, [requests])."""
+    out = []
+    kinds = ["replace", "delete_mkcalendar", "replace_empty", "delete_putcoll"]
+    lays = [(False, False), (True, True)]
+    for i, k in enumerate(kinds):
+        for lay in (lays if not quick else [lays[i % 2]]):
+            coll = ["user/cal", "user/cal2"][i % 2]
+            t = "%d%d" % (i, lay[0])
+            out.append(("rebind_%s" % k, lay, _item_ops(coll, t + "a", rng, 2) + _rebind(k, coll, t) + _item_ops(coll, t + "b", rng, 3)))
+    # an empty collection is removed with rmdir (no temp directory: the old directory is unlinked in place)
+    out.append(("rebind_empty_rmdir_mkcalendar", lays[0],
+                [_rq("PUT", "/user/empty/hx.ics", EV("hx")), _rq("DELETE", "/user/empty/hx.ics"), _rq("DELETE", "/user/empty/"),
+                 _rq("MKCALENDAR", "/user/empty/")] + _item_ops("user/empty", "e", rng, 2)))
+    # one level up: the parent is used (a collection created in it: the parent directory is synced), deleted and re-created
+    out.append(("rebind_parent_delete_mkcol", lays[0],
+                [_rq("MKCALENDAR", "/user/plain/k1/"), _rq("DELETE", "/user/plain/"), _rq("MKCOL", "/user/plain/"),
+                 _rq("MKCALENDAR", "/user/plain/k2/")] + _item_ops("user/plain/k2", "p", rng, 2) + [_rq("DELETE", "/user/plain/k2/")]))
+    # several rounds, rebinding kinds and lengths drawn from the seed
+    for j in range(2 if quick else 8):
+        coll = rng.choice(["user/cal", "user/cal2", "user/abook2"])
+        seq = []
+        if coll == "user/abook2":
+            seq.append(_rq("MKCALENDAR", "/user/abook2/"))
+        for rnd in range(rng.randrange(2, 4)):
+            seq += _item_ops(coll, "x%d%d" % (j, rnd), rng, rng.randrange(1, 4))
+            seq += _rebind(rng.choice(kinds), coll, "x%d%d" % (j, rnd))
+        seq += _item_ops(coll, "x%dz" % j, rng, rng.randrange(2, 5))
+        out.append(("rebind_rounds_%d" % j, rng.choice(lays), seq))
+    return out
+
+
+def history_run(args):
+    """One history on one server process under strace; every request is cut out of the trace by marks.
+    Returns dict(name, lay, error | results=[dict(request, status, steps, verdict, stale)], whole=[steps of the whole history])."""
+    base, shape, lay, name, reqs = args
+    try:
+        pre = build_shape(shape, lay, base)
+        case_dir = os.path.join(base, "case-hist-%s-%d%d" % (name, lay[0], lay[1]))
+        if os.path.isdir(case_dir):
+            shutil.rmtree(case_dir)
+        os.makedirs(case_dir)
+        folder = os.path.join(case_dir, "st")
+        shutil.copytree(pre, folder, symlinks=True, copy_function=shutil.copy2)
+        names, contents = X.Names(), X.Contents()
+        X.tree_entries(folder, names, contents)
+        names.residue = False
+        rc, txt, out, tr = run_driver(case_dir, folder, conf_for(base, lay), reqs[0], followups=reqs[1:], timeout=300)
+        if out is None:
+            return dict(name=name, lay=lay, error="driver failed rc=%s %s" % (rc, txt[-600:]))
+        evs = trace.parse(tr)
+        X.tree_entries(folder, names, contents)
+        statuses = [out.get("status")] + list(out.get("followups") or [])
+        marks = [("req", "end")] + [("fu%d" % i, "fu%d" % (i + 1)) for i in range(len(reqs) - 1)]
+        results, whole = [], []
+        for rq_, st, (m0, m1) in zip(reqs, statuses, marks):
+            steps_i, _, _ = X.project(evs, folder, names, contents, m0, m1)
+            ok_steps = [s_["step"] for s_ in steps_i if s_["ok"]]
+            whole += ok_steps
+            stale = ["%s: the descriptor was opened as %s and names %s now" % (X.fmt_step(s_["step"]), s_["opened"], s_["now"])
+                     for s_ in steps_i if s_["ok"] and s_.get("opened") is not None and s_["step"][0] == "FsyncD"]
+            v = X.durable_monitor(ok_steps) if st in SUCCESS and rq_["method"] in MODIFYING else None
+            results.append(dict(request="%s %s" % (rq_["method"], rq_["path"]), status=st, verdict=v, steps=ok_steps, stale=stale))
+        shutil.rmtree(case_dir, ignore_errors=True)
+        return dict(name=name, lay=lay, error=None, results=results, whole=whole, errors=out.get("followup_errors"))
+    except Exception as ex:
+        import traceback
+        return dict(name=name, lay=lay, error="exception: %r %s" % (ex, traceback.format_exc()[-800:]))
